@@ -20,6 +20,10 @@ checks = {
    technique="deterministic simulation with exhaustive fault enumeration: depth-first walk of the complete decision tape tree (transition x mode x real device state x outcome of every device step) over the real transitioner and RPC client against a simulated device",
    text="Complete enumeration (both tiers) of every transition from every believed and real device state with every outcome of every device step (done, refused, error state, request lost, reply lost, wrong event, wrong trigger) against a reference FairMQ / O2 device; oracles: reported state is the image of the real device state or nothing is claimed, no error only if the device reached the destination, single refused step at an intermediate state is rolled back to the source when the device accepts the rollback.",
    note="The device is a model written from the FairMQ state machine documentation (stable states); the gRPC transport is replaced by an injected pb.OccClient (verif hook)."),
+ "C07": dict(harness="hrn", design="§6 C07",
+   technique="deterministic simulation with fault injection: seeded schedules of concurrent callers, foreign writers, request faults and caller crashes over the real Consul client path; history checked for uniqueness and (porcupine) linearizability against a fetch-and-increase register",
+   text="Seeded exploration of the real NewRunNumber path (apricot service, ConsulSource.GetNextUInt32, hashicorp consul api client) of several cores sharing one simulated Consul: concurrent callers, atomic foreign writers, request faults (500, connection error, response lost after apply, slow), core death before/after a request was applied, restarts. Oracles: successful numbers pairwise distinct, linearizable against a strictly increasing register (porcupine), every success backed by an applied successful CAS, calls of live cores return.",
+   note="Consul is a model (linearizable consistent reads, atomic cas) behind an http.RoundTripper; the START_ACTIVITY side of the property (start cancelled when no number can be had) is exercised by the environment harness."),
 }
 
 na = {
